@@ -47,6 +47,22 @@ def universe():
         for d in (docs[0], docs[len(docs) // 2]):
             for ef in (False, True):
                 va.append(('va', d, s, ef))
+    # other spellings of the same files (absolute path, bare file name resolved by localpath, backslashes): each is its
+    # own cache key and must behave like the plain spelling does in a fresh process
+    def spell(p, k):
+        if k == 'abs':
+            return os.path.join(REPO, p)
+        if k == 'bare':
+            return p.split('/', 1)[1] if p.startswith('json/') else p
+        return p.replace('/', '\\')
+    for s_ in (schemas[0], schemas[len(schemas) // 2], defs[0]):
+        for k in ('abs', 'bare', 'backslash'):
+            for ef in (False, True):
+                sv.append(('sv', spell(s_, k), 'Draft4Validator', ef))
+    for d, s_ in ((docs[0], top[0]), (docs[1], top[0]), (docs[len(docs) // 2], top[len(top) // 2])):
+        for k in ('abs', 'bare', 'backslash'):
+            for ef in (False, True):
+                va.append(('va', spell(d, 'abs' if k != 'backslash' else k), spell(s_, k), ef))
     return sv, va, docs, top
 
 
